@@ -4,7 +4,7 @@
    H is an arbitrary hash function; [roots] is the naive forest over all leaves ever added;
    [add_leaves] is the carry chain of addLeaves; [recompute] is updateLeaves' recursion. *)
 From Coq Require Import List NArith.
-From Sia Require Import Prim.Tok Merkle.Tree Merkle.Update Merkle.Forest Merkle.Acc Merkle.AccProofs.
+From Sia Require Import Prim.Tok Merkle.Tree Merkle.Update Merkle.UpdateProofs Merkle.Forest Merkle.Acc Merkle.AccProofs.
 Import ListNotations.
 
 (* after every block list, every leaf's naive proof verifies against the accumulator and
@@ -55,3 +55,34 @@ Example C05_nonvacuous : let H := fun b : bytes => b in
   exists l, nth_error (run [{| b_updated := []; b_added := [([1%N], false); ([2%N], false); ([3%N], true)] |};
                             {| b_updated := [mkLeaf [1%N] 0 true]; b_added := [([4%N], false)] |}]) 2 = Some l.
 Proof. eexists. reflexivity. Qed.
+
+(* ---- incremental proof maintenance inside one tree (updateLeaves.recompute, updateProof) ---- *)
+(* recompute returns the root of the updated tree and, for every updated leaf, its proof in the updated tree *)
+Theorem C05_update_leaves_proofs : forall (node : hash -> hash -> hash) d t ls,
+  perfect hash t -> ls <> [] -> Forall (valid_old hash node t) ls -> NoDup (map (pos hash) ls) ->
+  let t' := apply_updates hash t ls in
+  fst (recompute hash node (height hash t) d ls) = root hash node t' /\
+  Forall (fun u => prf hash u = sibs hash node t' (pos hash u)) (snd (recompute hash node (height hash t) d ls)) /\
+  Permutation.Permutation (map (key hash) (snd (recompute hash node (height hash t) d ls))) (map (key hash) ls).
+Proof. exact (fun node d t => recompute_spec hash node d t). Qed.
+Print Assumptions C05_update_leaves_proofs.
+
+(* updateProof: patching the old proof of any other leaf from the closest updated leaf gives that leaf's proof in the
+   updated tree *)
+Theorem C05_update_proof_correct : forall (node : hash -> hash -> hash) t p ls,
+  perfect hash t -> length p = height hash t -> ls <> [] ->
+  Forall (fun v => length (pos hash v) = height hash t) ls ->
+  let t' := apply_updates hash t ls in
+  Forall (fun v => prf hash v = sibs hash node t' (pos hash v) /\ get hash t' (pos hash v) = Some (newh hash v)) ls ->
+  update_proof hash node p (sibs hash node t p) ls = sibs hash node t' p.
+Proof. exact (update_proof_correct hash). Qed.
+Print Assumptions C05_update_proof_correct.
+
+(* both steps: after updateLeaves and updateProof every leaf position of the tree carries its proof in the updated tree *)
+Theorem C05_update_flow : forall (node : hash -> hash -> hash) d t ls p,
+  perfect hash t -> ls <> [] -> Forall (valid_old hash node t) ls -> NoDup (map (pos hash) ls) -> length p = height hash t ->
+  let t' := apply_updates hash t ls in
+  let '(rt, ls') := recompute hash node (height hash t) d ls in
+  rt = root hash node t' /\ update_proof hash node p (sibs hash node t p) ls' = sibs hash node t' p.
+Proof. exact (update_flow hash). Qed.
+Print Assumptions C05_update_flow.
